@@ -166,6 +166,28 @@ def run(repo, rep, tier):
     # the keys of an attribute dictionary are written as given (C02 owns the
     # routing of dictionary entries)
     L.borrow(repo, rep, "R01.5", "C02", c02._routing, ("dict-operand",))
+    # the switch a case belongs to is the nearest enclosing one that exists:
+    # the search loop stops at the first entry that is not None
+    ve_ = repo.func("chameleon.zpt.program.MacroProgram.visit_element")
+    sl = [lp for lp in ast.walk(ve_.node) if isinstance(lp, ast.For)
+          and "self._switches" in src(lp.iter)]
+    oksl = bool(sl)
+    for lp in sl:
+        var = src(lp.target)
+        brk = [b for b in ast.walk(lp) if isinstance(b, ast.Break)]
+        for b in brk:
+            gs = [src(L._CanonIf._pos(t_)[0]).replace(" ", "")
+                  for t_, v_ in L.guards_of(b, lp)
+                  if isinstance(t_, ast.expr)]
+            if not any(g in (var + "isNone", var + "isnotNone", var)
+                       for g in gs):
+                oksl = False
+        if not brk or not lp.orelse:
+            oksl = False
+    rep.check(oksl, "R01.3", ve_.qualname, "the search for the enclosing "
+              "switch tests the entry it looks at, and a case without any "
+              "switch is an error", construct="switch-search",
+              where=L.where(ve_))
     L.state_rule(repo, rep)
 
 
